@@ -237,6 +237,11 @@ def generate(tier):
                 inits = ["none"] if kind != "injective" else ["none", "first", "last", "pair"]
                 for init in inits:
                     cases.append({**base, "map": m, "mapkind": kind, "init": init})
+    # the same mapper object re-used after its map was changed
+    for net, n in (("chain", {"A": 3, "B": 3}), ("merge", {"A": 1, "B": 2, "C": 3})):
+        perms = [list(p_) for p_ in it.permutations(range(3))]
+        for first, second in it.permutations(perms, 2):
+            cases.append({"net": net, "opt": "none", "n": n, "map": second, "mapkind": "injective", "init": "first", "first_map": first})
     return cases
 
 
@@ -263,7 +268,14 @@ def check(case):
     elif case["init"] == "pair":
         init = {first: [0, n[first] - 1]}
     try:
-        lm = LabelMapper(base, label_variables=dict(n), label_maps=maps).build_model(initial_labels=init)
+        if case.get("first_map") is not None:
+            # one mapper object, built once with another map for v1, then given this map and built again
+            mapper = LabelMapper(base, label_variables=dict(n), label_maps={**maps, "v1": list(case["first_map"])})
+            mapper.build_model(initial_labels=init)
+            mapper.label_maps["v1"] = list(case["map"])
+            lm = mapper.build_model(initial_labels=init)
+        else:
+            lm = LabelMapper(base, label_variables=dict(n), label_maps=maps).build_model(initial_labels=init)
     except ValueError as exc:
         if case["mapkind"] == "short":
             return outcome(True, "short-map-rejected", nontrivial=nt)
